@@ -72,7 +72,16 @@ def builder_job(which, n, prior=False, eq=True, zero_rows=False, pattern=None, c
                     if not pattern[i][j]:
                         C[i][j] = 0.0
         pr = None
-        if prior:
+        prm = None
+        if prior == 'matrix':
+            # documented form "array, shape=(n_states, n_states)": an arbitrary (NOT necessarily symmetric) matrix of pseudocounts
+            prm = [[core.fresh_real('prior') for _ in range(n)] for _ in range(n)]
+            for row in prm:
+                for x in row:
+                    ctx.add(core.to_z3_real(x) >= 0)
+            pr = funcs.np_array(prm, dtype=float)
+            pr0 = pr.copy()
+        elif prior:
             pr = core.fresh_real('prior')
             ctx.add(core.to_z3_real(pr) >= 0)
         if int_counts:
@@ -136,7 +145,10 @@ def builder_job(which, n, prior=False, eq=True, zero_rows=False, pattern=None, c
             exc = e
 
         def oracle(C_, pr_, Cout_, T_, pi_, type_ok):
-            Cp = [[x + (pr_ if pr_ is not None else 0) for x in row] for row in C_]
+            if isinstance(pr_, list):
+                Cp = [[C_[i][j] + pr_[i][j] for j in range(n)] for i in range(n)]
+            else:
+                Cp = [[x + (pr_ if pr_ is not None else 0) for x in row] for row in C_]
             if which == 'transpose':
                 S = [[Cp[i][j] + Cp[j][i] for j in range(n)] for i in range(n)]
                 exp_C = [[S[i][j] / 2 for j in range(n)] for i in range(n)]
@@ -170,8 +182,13 @@ def builder_job(which, n, prior=False, eq=True, zero_rows=False, pattern=None, c
 
         def witness(model):
             Cc = [[float(ev(model, x)) if isinstance(x, SVal) else float(x) for x in row] for row in C]
-            pc = float(ev(model, pr)) if pr is not None else None
-            out = {'inputs': {'builder': which, 'counts': Cc, 'prior_counts': pc, 'calculate_eq_probs': eq,
+            if prm is not None:
+                pcl = [[float(ev(model, x)) for x in row] for row in prm]
+                pc = np.array(pcl)
+            else:
+                pcl = None
+                pc = float(ev(model, pr)) if pr is not None else None
+            out = {'inputs': {'builder': which, 'counts': Cc, 'prior_counts': pcl if prm is not None else pc, 'calculate_eq_probs': eq,
                               'container': container or 'ndarray', 'element_type': 'int64' if int_counts else 'float64'}}
             Ac = np.array(Cc).astype(int) if int_counts else np.array(Cc)
             if container == 'coo-dup':
@@ -194,16 +211,19 @@ def builder_job(which, n, prior=False, eq=True, zero_rows=False, pattern=None, c
             out['out'] = {'C': dn2(Co2).tolist(), 'T': dn2(T2).tolist(),
                           'pi': None if pi2 is None else [float(x) for x in np.asarray(pi2).reshape(-1)]}
             Tol.TOL = 1e-6
+            dense_t = (np.ndarray, np.matrix)          # scipy's sparse + dense array gives np.matrix: a dense type as well
             if container is None:
                 tok = type(T2) is np.ndarray and type(Co2) is np.ndarray
             elif pc is not None:
-                tok = (type(T2) is type(Ac) or type(T2) is np.ndarray) and (type(Co2) is type(Ac) or type(Co2) is np.ndarray)
+                tok = (type(T2) is type(Ac) or type(T2) in dense_t) and (type(Co2) is type(Ac) or type(Co2) in dense_t)
             else:
                 tok = type(T2) is type(Ac) and type(Co2) is type(Ac)
-            bad = run_oracle(oracle(tolm(Cc), Tol(pc) if pc is not None else None, tolm(dn2(Co2).tolist()),
+            bad = run_oracle(oracle(tolm(Cc), tolm(pcl) if prm is not None else (Tol(pc) if pc is not None else None), tolm(dn2(Co2).tolist()),
                                     tolm(dn2(T2).tolist()), None if pi2 is None else tolv(np.asarray(pi2).reshape(-1)), tok))
             if dn2(Ac).tolist() != Cc:
                 bad.append('caller-matrix-modified')
+            if prm is not None and pc.tolist() != pcl:
+                bad.append('prior-count-matrix-modified')
             if zero_rows or pattern is not None:
                 # same arguments, different heap history: free NaN/inf-filled blocks of the sizes the builder allocates
                 from harness.C18 import poison_replay
@@ -219,7 +239,9 @@ def builder_job(which, n, prior=False, eq=True, zero_rows=False, pattern=None, c
         if exc is not None:
             return PathOut([('no-exception', False)], {}, witness, exc=type(exc).__name__,
                            desc='raises %s: %s' % (type(exc).__name__, str(exc)[:100]))
-        obs = oracle(C, pr, Cl, Tl, pil, type_ok)
+        obs = oracle(C, prm if prm is not None else pr, Cl, Tl, pil, type_ok)
+        if prm is not None:
+            obs.append(('prior-count-matrix-unmodified', conj([a == b_ for a, b_ in zip(pr.cells(), pr0.cells())])))
         from harness.C18 import independent_of_uninitialised
         indep, ng = independent_of_uninitialised(ctx, [c for c in Td.cells() if isinstance(c, core.SFloat)])
         obs.append(('result-independent-of-uninitialised-memory', indep))
@@ -417,6 +439,11 @@ def jobs(tier):
                 add('%s,n=%d,prior=%s,eq' % (which, n, prior), which=which, n=n, prior=prior, eq=True)
             add('%s,n=%d,no-eq' % (which, n), which=which, n=n, eq=False)
         add('normalize,n=%d,zero-rows,no-eq' % n, which='normalize', n=n, eq=False, zero_rows=True)
+    # prior counts given as a (not necessarily symmetric) n x n matrix, dense and sparse counts
+    for which in ('normalize', 'transpose'):
+        add('%s,n=2,prior=matrix,eq' % which, which=which, n=2, prior='matrix', eq=True)
+        add('%s,n=3,prior=matrix,no-eq' % which, which=which, n=3, prior='matrix', eq=False)
+        add('%s,n=2,csr,prior=matrix,no-eq' % which, which=which, n=2, prior='matrix', eq=False, container='csr')
     # irreducible but periodic count patterns (eigenvalues other than 1 on the unit circle)
     add('normalize,n=2,periodic-2-cycle,eq', which='normalize', n=2, eq=True, pattern=[[0, 1], [1, 0]])
     add('normalize,n=3,periodic-3-cycle,eq', which='normalize', n=3, eq=True, pattern=[[0, 1, 0], [0, 0, 1], [1, 0, 0]])
